@@ -46,6 +46,7 @@ static const char *kind_name[NKIND] = { "fd", "timer", "task", "event", "raw" };
 
 static int cfg_method, cfg_alloc_reuse, cfg_clk_pct, cfg_eintr_pct, cfg_pwait2_err;
 static int64_t cfg_cb_cost;   /* virtual time every callback takes (too little to oblige iv_invalidate_now) */
+static int64_t prev_wait_end = -1, last_wait_end = -1;   /* virtual time when the previous / latest wait call ended */
 static int64_t entry_reading;  /* the thread's last clock reading when the current wait was entered */
 static int cfg_nfd, cfg_ntimer, cfg_ntask, cfg_nev, cfg_nraw;
 static long budget;
@@ -756,7 +757,7 @@ static void hook_wait_entry(struct vk_wait *w)
 	last_wait_polled = 1;
 	iter++;
 	callbacks_this_iter = 0; blocked_env_event = 0;
-	entry_reading = vk_last_reading();
+	entry_reading = vk_last_reading(); prev_wait_end = last_wait_end;
 	vz_log("wait #%lu %s timeout=%lld ns%s", iter, vk_prim_name[w->prim], (long long)w->timeout_ns, w->tfd_armed ? " (timerfd armed)" : "");
 	int nreg = n_registered();
 	/* The loop may finish library-internal work (e.g. the local-event task left behind by a post whose
@@ -814,7 +815,9 @@ static int hook_wait_block(struct vk_wait *w)
 		int64_t slack = 0;
 		if (w->deadline == w->timeout_deadline && w->timeout_deadline != VK_INF && (w->prim == VK_EPOLL_WAIT || w->prim == VK_POLL)) slack = 1000000;
 		/* the timeout is computed from the loop's cached clock, so it may overshoot by what passed since that reading */
-		if (entry_reading >= 0 && w->entry_now > entry_reading) slack += w->entry_now - entry_reading;
+		/* ... but the clock must have been re-read after the previous wait call (time passes in waits) */
+		int64_t ref = entry_reading > prev_wait_end ? entry_reading : prev_wait_end;
+		if (ref >= 0 && w->entry_now > ref) slack += w->entry_now - ref;
 		if (w->deadline == w->tfd_deadline && w->tfd_deadline != VK_INF) slack = 0;   /* absolute kernel timer: exact */
 		if (w->deadline == VK_INF || w->deadline > e + slack) {
 			FAILP("C04", "oversleep", "loop blocks until %s but timer%d expires at now%+lld ns (%s timeout=%lld ns, timerfd %s)",
@@ -881,7 +884,7 @@ static void hook_wait_return(struct vk_wait *w, int n)
 			fail_any("spin", "loop spins: 9 consecutive empty wake-ups");
 		}
 	} else zero_progress = 0;
-	cbs_since_wait_return = 0;
+	cbs_since_wait_return = 0; last_wait_end = vk_now();
 	vz_log(" -> %d event(s), now=+%lld ns", n, (long long)(vk_now() - 1000 * VK_NS));
 }
 static void hook_wait_error(struct vk_wait *w, int err)
@@ -894,6 +897,7 @@ static void hook_wait_error(struct vk_wait *w, int err)
 		last_wait_polled = 0;   /* no kernel poll happened: not an iteration for the fd rules */
 		if (ch_n(2)) vk_advance((int64_t[]){ 1, 1000, 1000000, 50000000 }[ch_n(4)]);
 	}
+	last_wait_end = vk_now();
 }
 static int hook_poll_is_probe(void) { return !in_main || depth > 0; }
 static void hook_tfd_set(int fd, int64_t deadline)
